@@ -118,6 +118,7 @@ pub fn fired_kinds(plan: &Plan, r: &RunResult) -> Vec<String> {
             Item::WChunk { fd, .. } => r.events.iter().any(|e| e.kind == 'W' && e.fd == *fd && e.act == "chunk"),
             Item::RChunk { .. } => r.events.iter().any(|e| e.kind == 'R' && e.act == "chunk" && e.ret > 0),
             Item::Hint { .. } => r.events.iter().any(|e| e.kind == 'S' && e.act == "hint"),
+            Item::FType { .. } => r.events.iter().any(|e| e.kind == 'S' && e.act == "ftype"),
             Item::Eof { .. } | Item::Flip { .. } => r.events.iter().any(|e| e.kind == 'R'),
             Item::Kill { .. } => r.events.iter().any(|e| e.kind == 'K'),
         };
@@ -158,7 +159,15 @@ pub fn invisible_plan(rng: &mut Rng, ref_run: &RunResult) -> Plan {
                     p.items.push(Item::Read { n: n + b, act: Act::Eintr });
                 }
             }
-            6 if w1 > 0 => p.items.push(Item::Write { fd: 1, n: rng.below(w1), act: Act::Short(1 + rng.below(4)) }),
+            6 if w1 > 0 && (w2 == 0 || rng.chance(2, 3)) => p.items.push(Item::Write { fd: 1, n: rng.below(w1), act: Act::Short(1 + rng.below(4)) }),
+            6 if w2 > 0 => {
+                // a short write on stderr, optionally followed by EINTR on the continuation
+                let n = rng.below(w2);
+                p.items.push(Item::Write { fd: 2, n, act: Act::Short(1 + rng.below(4)) });
+                if rng.chance(1, 2) {
+                    p.items.push(Item::Write { fd: 2, n: n + 1, act: Act::Eintr });
+                }
+            }
             7 => p.items.push(Item::Open { n: 0, act: Act::Eintr }),
             8 => p.items.push(Item::Cwd { n: 0, act: Act::Erange }),
             9 => {
@@ -170,6 +179,13 @@ pub fn invisible_plan(rng: &mut Rng, ref_run: &RunResult) -> Plan {
                     _ => sz.saturating_sub(1),
                 };
                 p.items.push(Item::Hint { size: h });
+                if rng.chance(1, 3) {
+                    // the script arrives through a pipe: FIFO / character device, size 0, not seekable
+                    p.items.push(Item::FType { kind: 1 + rng.below(2) as u8 });
+                    if rng.chance(2, 3) {
+                        p.items.push(Item::RChunk { seed: rng.next_u64() >> 1, max: 1 + rng.below(64) });
+                    }
+                }
             }
             _ => {}
         }
@@ -180,6 +196,7 @@ pub fn invisible_plan(rng: &mut Rng, ref_run: &RunResult) -> Plan {
         Item::WChunk { fd, .. } => seen.insert(format!("w{fd}")),
         Item::RChunk { .. } => seen.insert("r".to_string()),
         Item::Hint { .. } => seen.insert("h".to_string()),
+        Item::FType { .. } => seen.insert("t".to_string()),
         _ => true,
     });
     let _ = EINTR;
